@@ -152,8 +152,8 @@ static void run_case(const Case &c, const Con &con, const std::function<double(d
   bool have = !x.empty();
   bool firstF32 = have && x.front() != tlo && x.front() == (double)(float)tlo;
   bool lastF32 = have && x.back() != thi && x.back() == (double)(float)thi;
-  bool lastNear = have && x.back() != thi && !lastF32 && std::fabs(thi - x.back()) <= 1e-4;
-  bool firstNear = have && x.front() != tlo && !firstF32 && std::fabs(tlo - x.front()) <= 1e-4;
+  bool lastNear = have && x.back() != thi && std::fabs(thi - x.back()) <= 1e-4;   // independent of the float diagnosis
+  bool firstNear = have && x.front() != tlo && std::fabs(tlo - x.front()) <= 1e-4;
   bool mid = x.size() == 1 && tlo != thi && x[0] == (tlo + thi) / 2.0;
   snprintf(b, sizeof b, "{\"e\":\"Done\",\"id\":%ld,\"n\":%zu,\"ny\":%zu,\"per\":%s,\"diag\":{\"mid\":%s,\"firstF32\":%s,"
            "\"lastF32\":%s,\"firstNear\":%s,\"lastNear\":%s,\"single\":%s}}\n", c.id, x.size(), y.size(),
